@@ -332,6 +332,8 @@ func (w *World) preludeFixed() string {
 (define-fun nilloc () Loc (loc 0 0))
 (declare-fun elem (Loc Int) Loc)
 (assert (forall ((b Loc) (k Int)) (! (= (elem b k) (loc (obj b) (+ (off b) k))) :pattern ((elem b k)))))
+(declare-fun elemn (Loc Int Int) Loc)
+(assert (forall ((b Loc) (k Int) (n Int)) (! (= (elemn b k n) (loc (obj b) (+ (off b) (* k n)))) :pattern ((elemn b k n)))))
 (declare-datatypes ((Slice 0)) (((slice (sptr Loc) (slen Int) (scap Int)))))
 (define-fun nilslice () Slice (slice nilloc 0 0))
 (declare-datatypes ((Iface 0)) (((iface (itag Int) (ival Loc)))))
@@ -346,6 +348,7 @@ func (w *World) preludeFixed() string {
 (declare-fun s.lt (Str Str) Bool)
 (declare-fun s.prefix (Str Str) Bool)
 (declare-fun s.fromint (Int) Str)
+(declare-fun s.byte (Int) Str)
 (declare-fun s.idx (Str Str) Int)
 `
 }
@@ -373,6 +376,9 @@ func (w *World) strLitFacts(chars bool) []string {
 	}
 	for i, s := range w.strLitArr {
 		out = append(out, fmt.Sprintf("(= (s.len strlit!%d) %d)", i, len(s)))
+		if len(s) == 1 {
+			out = append(out, fmt.Sprintf("(= strlit!%d (s.byte %d))", i, s[0]))
+		}
 		if chars && len(s) <= 64 {
 			for j := 0; j < len(s); j++ {
 				out = append(out, fmt.Sprintf("(= (s.at strlit!%d %d) %d)", i, j, s[j]))
